@@ -38,6 +38,10 @@ INPUT_FILES = {"topol.xml", "settings.xml", "traj.gro", "traj.dump", "stdout.txt
 # ------------------------------------------------------------------------------------------------
 # input generation (from the TLC record only)
 # ------------------------------------------------------------------------------------------------
+# thread counts cycled over the runs (set by run(): quick 1..3, thorough up to 8; frames < threads occurs)
+NT_CYCLE = [1, 2, 3]
+
+
 def q2real(v):
     return repr(v / 32.0)
 
@@ -178,7 +182,7 @@ def execute(exe, base, idx, run):
     idx = run.get("idx", idx)              # a replayed record carries the index its input choices came from
     # trajectory format / thread count / explicit --nframes are inputs chosen from the run index
     use_dump = (not run["tie"]) and run["kind"] in (1, 2, 5) and idx % 3 == 2
-    nt = run.get("nt", 1 + idx % 3)
+    nt = run.get("nt", NT_CYCLE[idx % len(NT_CYCLE)])
     nfirst = max(run["first"], 1)
     omit = (run["nframes"] == len(run["frames"]) - nfirst + 1) and idx % 2 == 1
     tgts = write_inputs(run, d, use_dump)
@@ -290,6 +294,8 @@ def slim(run, cmd, idx):
 
 
 def run(ctx):
+    global NT_CYCLE
+    NT_CYCLE = [1, 2, 3] if ctx.quick else [1, 2, 3, 4, 5, 8]
     bindir = vlib.ensure_build(["csg_stat"])
     exe = os.path.join(bindir, "csg_stat")
     quick = ctx.quick
